@@ -80,9 +80,9 @@ NoImplicitChoice == (Done /\ ChoiceLike(kind)) => explicit
 ----------------------------------------------------------------------------
 (* automatic tagging *)
 \* which components carry a tag: none / the first / the last / all of three root components; with an extension marker, an
-\* addition and a version group after them: none ("none_ext"), the addition, the component inside the version group.  The
+\* addition and a version group after them: none ("none_ext"), the addition, the components inside the version group (all of them, or one of two: "group_part").  The
 \* components of an ExtensionAdditionGroup are components of the type like any other (X.680 25.7, 25.8: "ComponentTypeLists")
-Patterns   == {"none", "first", "last", "all", "none_ext", "addition", "group"}
+Patterns   == {"none", "first", "last", "all", "none_ext", "addition", "group", "group_part"}
 Containers == {"SEQUENCE", "SET", "CHOICE"}
 Automatic(d, pat) == d = "AUTOMATIC" /\ pat \in {"none", "none_ext"}
 =============================================================================
